@@ -44,6 +44,9 @@ type tblCase struct {
 	Seed      int64  `json:"seed"`
 	// reader options of the control arm: 0 default (verify on load), 1 verify on read too, 2 verify on read only, 3 none
 	ReadVerify int `json:"read_verify,omitempty"`
+	// bloom false positive probability in 1/10000 (0 = library default) and the explicit EnableBloomFilter option
+	BloomFp     int  `json:"bloom_fp,omitempty"`
+	BloomEnable bool `json:"bloom_enable,omitempty"`
 }
 
 type kv struct {
@@ -169,6 +172,8 @@ func tblGen(r *rand.Rand, mode string, thorough bool) tblCase {
 		}
 		c.SkipList = false
 	}
+	c.BloomFp = pick(r, 0, 0, 3000, 100, 1)
+	c.BloomEnable = r.Intn(3) == 0
 	return c
 }
 
@@ -179,6 +184,12 @@ func tblWrite(dir string, c tblCase, pairs []kv) error {
 		sstables.DataCompressionType(c.DataComp),
 		sstables.IndexCompressionType(c.IndexComp),
 		sstables.BloomExpectedNumberOfElements(c.Bloom),
+	}
+	if c.BloomFp > 0 {
+		opts = append(opts, sstables.BloomFalsePositiveProbability(float64(c.BloomFp)/10000))
+	}
+	if c.BloomEnable {
+		opts = append(opts, sstables.EnableBloomFilter())
 	}
 	if c.SkipList {
 		m := skiplist.NewSkipListMap[[]byte, []byte](skiplist.BytesComparator{})
